@@ -283,6 +283,53 @@ def run(ck):
         ck.count("config:" + label, 300)
     shutil.rmtree(cdir, ignore_errors=True)
 
+    # ---- (vi) quantities that come OUT of a context conversion (their dimension changed on the way); the
+    #      predicates are then asked with no context active and must follow the units the quantity now has
+    for nit_label, uX in (("Fraction", regk.registry(F)), ("float", regk.registry(float))):
+        one = F(7, 2) if nit_label == "Fraction" else 3.5
+        hops = [("sp", "nanometer", "terahertz"), ("sp", "terahertz", "nanometer"), ("sp", "nanometer", "electron_volt"),
+                ("boltzmann", "kelvin", "electron_volt"), ("boltzmann", "electron_volt", "kelvin"), ("energy", "gram", "joule")]
+        probes = ["meter", "hertz", "joule", "kelvin", "gram", "second", "inch", "terahertz", "electron_volt", "nanometer"]
+        for ctxn, src, dst in hops:
+            for how in ("to(ctx)", "ito(ctx)", "with-block", "ureg.convert+Quantity"):
+                for warm in (False, True):
+                    q = uX.Quantity(one, src)
+                    if warm:
+                        q.dimensionality, q.is_compatible_with("meter")
+                    try:
+                        if how == "to(ctx)":
+                            r = q.to(dst, ctxn)
+                        elif how == "ito(ctx)":
+                            q.ito(dst, ctxn)
+                            r = q
+                        elif how == "with-block":
+                            with uX.context(ctxn):
+                                r = q.to(dst)
+                        else:
+                            with uX.context(ctxn):
+                                r = uX.Quantity(uX.convert(one, src, dst), dst)
+                    except Exception as e:      # the hop itself is C11's business
+                        ck.count("ctx-hop-unavailable")
+                        continue
+                    expect = uX.get_dimensionality(r._units)
+                    rp = {"context": ctxn, "source": src, "target": dst, "how": how, "source_examined_before": warm, "registry": nit_label}
+                    oracle(r.dimensionality == expect, "after-context:dimensionality:" + how,
+                           f"{src} -> {dst} through context {ctxn} by {how}: the result reports dimensionality {dict(r.dimensionality)}, its units have {dict(expect)}", rp)
+                    for pu in probes:
+                        same = uX.get_dimensionality(pu) == expect
+                        try:
+                            r.to(pu)
+                            okc = True
+                        except pint.errors.DimensionalityError:
+                            okc = False
+                        oracle(okc == same, "after-context:iff:" + how, f"result of {how} ({dst}) converts to {pu}: {okc}, same dimensionality: {same}", dict(rp, probe=pu))
+                        oracle(r.is_compatible_with(pu) == same and uX.is_compatible_with(r, pu) == same and uX.Unit(pu).is_compatible_with(r) == same,
+                               "after-context:pred:" + how, f"result of {how} ({dst}): is_compatible_with({pu!r}) disagrees with the conversion relation ({same})", dict(rp, probe=pu))
+                        oracle(r.check(uX.get_dimensionality(pu)) == same, "after-context:check:" + how,
+                               f"result of {how} ({dst}): check(dimensionality of {pu}) disagrees with the conversion relation ({same})", dict(rp, probe=pu))
+                    ck.case(key=("after-context", nit_label, ctxn, src, dst, how, warm))
+        ck.count("after-context", 1)
+
     # ---- differ inside Coq
     gtot, gbad, gfirst = regk.generated_stream(ck, rng, 40 if thorough else 6, oracle, "c01")
     ck.extra["generated_registry_cases"] = gtot
